@@ -4,7 +4,7 @@
   the order sent), never more than `size` messages are buffered and a slot is only written
   while it holds NULL.  Property C11.
 -/
-import LibfiberVerif.Proof.MultiChanInv
+import LibfiberVerif.Proof.MultiChanLock
 
 set_option linter.unusedSimpArgs false
 
@@ -35,13 +35,6 @@ theorem mod_ne_of_lt {a b c : Nat} (h1 : a < b) (h2 : b - a < c) : a % c ≠ b %
   rw [Nat.mod_eq_of_lt h2] at h3
   omega
 
-/-- two fibers inside the critical section are the same fiber -/
-theorem cs_unique {s : St} (hi : Inv s) {f g : Nat} (hf : (s.pc f).inCS = true) (hg : (s.pc g).inCS = true) :
-    f = g := by
-  have a := hi.cs_lock f hf
-  have b := hi.cs_lock g hg
-  rw [a] at b; exact Option.some.inj b
-
 structure RInv (s : St) : Prop where
   len : s.sent.length = s.high
   lowhigh : s.low ≤ s.high ∧ s.high - s.low ≤ s.cap
@@ -56,7 +49,7 @@ structure RInv (s : St) : Prop where
   calls_eq : ∀ f, sentBy s f ++ (s.pc f).pending = s.calls f
   pend_nz : ∀ f v, v ∈ (s.pc f).pending → v ≠ 0
 
-theorem rinv_init (cap : Nat) : RInv (init cap) := by
+theorem rinv_init (two : Bool) (cap : Nat) : RInv (init two cap) := by
   constructor <;> simp [init, val, sentBy, Pc.pending, Op.pend]
 
 end LibfiberVerif.MultiChan
